@@ -159,7 +159,15 @@ def run(rep):
     rep.floor("R-C16-process", 12)
     rep.floor("R-C16-partial", 5)
     rep.clause("R-C16-process / R-C16-partial", "the allocating wrappers return exactly the frames the core call reports (the recipe skips and keeps frame counts of these streams): shared with C16")
+    # "n*ratio": the FFT types convert at exactly rate_out/rate_in only if their block sizes are exact multiples of the reduced rates (shared with C07)
+    import C07
+    rep.guarded("R-C07-gcd", C07.rule_gcd)
+    rep.guarded("R-C07-exact", C07.rule_exact)
+    rep.floor("R-C07-gcd", 3 * 3 + 2)
+    rep.floor("R-C07-exact", 4)
+    rep.clause("R-C07-gcd / R-C07-exact", "fft_size_in : fft_size_out = rate_in : rate_out exactly (integer arithmetic, exact divisions), so an event at input frame n lands at n·ratio (shared with C07)")
     import shares
+    shares.step(rep, ASYNC, "the model's start position assumes the position advances before it is used, by the step, once per frame")
     shares.carry(rep, ASYNC, "the alignment model assumes the history offset cancels (shift length = load start = read base)")
     rep.floor("R-C14-model", 1 + 1 + 4 + 1 + 3)
     rep.floor("R-C14-siblings", 2)
